@@ -61,7 +61,7 @@ Proof.
   assert (Hbits' : (match fixed with Some b => Ok b | None => operand_storing_width (OReg rt') end) = Ok (8 * Z.of_nat n))
     by (destruct fixed; cbn [operand_storing_width]; congruence).
   rewrite Hbits'. cbn [bind operand_store sideeffect].
-  destruct (exec_load s st 38%N (8 * Z.of_nat n) a_e _ n data He ltac:(lia) ltac:(lia) eq_refl DA (wrap64_range _) Hm Hrd)
+  destruct (exec_load s st 70%N (8 * Z.of_nat n) a_e _ n data He ltac:(lia) ltac:(lia) eq_refl DA (wrap64_range _) Hm Hrd)
     as (st1 & E1 & He1 & G1).
   assert (Dt : den (st_env st1) (EScalar (s_temp0 (8 * Z.of_nat n))) = Ok (mkc (8 * Z.of_nat n) data))
     by (apply den_scalar_get; [exact G1|reflexivity]).
@@ -87,7 +87,7 @@ Proof.
   rewrite Hck. cbn [bind]. rewrite MA. cbn [bind fst snd].
   rewrite mk_ext_ok by (cbn [e_bits s_temp0 sbits]; lia). cbn [unwrap bind operand_store sideeffect].
   subst width.
-  destruct (exec_load s st 38%N (8 * Z.of_nat n) a_e _ n data He ltac:(lia) ltac:(lia) eq_refl DA (wrap64_range _) Hm Hrd)
+  destruct (exec_load s st 70%N (8 * Z.of_nat n) a_e _ n data He ltac:(lia) ltac:(lia) eq_refl DA (wrap64_range _) Hm Hrd)
     as (st1 & E1 & He1 & G1).
   assert (Dt : den (st_env st1) (EExt Sext (reg_bits rt') (EScalar (s_temp0 (8 * Z.of_nat n)))) =
                Ok (mkc (reg_bits rt') (s_sext (reg_bits rt') (8 * Z.of_nat n) data))).
